@@ -7,7 +7,8 @@ Deciding method
           (Base/Bits32, Base/F32) and never undefined behaviour (coq/Msl/CatalogueProofs.v, Props/C04.v).
   tie R   probe: one micro-program per (operator, kind, shape) is compiled on every run, the emitted expression and
           helper bodies are read back and written to coq/Gen/MslOpTable.v; obligation gen_table_in_catalogue.
-  tie V   differential execution of whole programs (hand-written corpus + repository shaders) x msl.Options sets:
+  tie V   differential execution of whole programs (hand-written corpus + repository shaders + typed random programs of
+          lib/wgslgen.py prepared by lib/mslgen.py, disagreements shrunk and keyed by construct) x msl.Options sets:
           `irrun` on the IR dump vs `mslrun` on the parsed MSL text, same inputs, final storage buffers compared;
           C++ struct layout (Metal size/alignment table) compared with IR offsets/spans/strides;
           bounds-check policies exercised with hostile indices against the policy written out in WGSL.
